@@ -580,8 +580,13 @@ class _CDF(Fam):
     def sample_cfg(self, rng, tier):
         tails = None if rng.random() < 0.5 else "linear"
         lo = self.minbins_tails if tails else 1
-        return {"fam": self.name, "shape": _anyshape(rng), "bins": int(rng.integers(lo, 9)), "tails": tails,
-                "B": float(rng.choice([1.0, 2.5, 10.0]))}
+        c = {"fam": self.name, "shape": _anyshape(rng), "bins": int(rng.integers(lo, 9)), "tails": tails,
+             "B": float(rng.choice([1.0, 2.5, 10.0]))}
+        if self.kind != "linear" and rng.random() < 0.4:
+            # non-default (and unequal) bin floors
+            c["minw"] = float(rng.choice([1e-3, 0.02, 0.05]))
+            c["minh"] = float(rng.choice([1e-3, 0.01, 0.04]))
+        return c
 
     def must(self):
         return [{"fam": self.name, "shape": [2], "bins": max(1, self.minbins_tails), "tails": "linear", "B": 1.0},
@@ -598,6 +603,11 @@ class _CDF(Fam):
             kw["identity_init"] = True
         if self.kind == "rq" and cfg.get("minder"):
             kw["min_derivative"] = cfg["minder"]
+        if self.kind != "linear":
+            if cfg.get("minw"):
+                kw["min_bin_width"] = cfg["minw"]
+            if cfg.get("minh"):
+                kw["min_bin_height"] = cfg["minh"]
         return cls(**kw)
 
     def meta(self, cfg):
@@ -661,6 +671,9 @@ class _Coupling(Fam):
             tails = None if rng.random() < 0.4 else "linear"
             cfg.update({"bins": int(rng.integers(self.minbins_tails if tails else 1, 7)), "tails": tails,
                         "B": float(rng.choice([1.0, 3.0])), "uncond": bool(rng.random() < 0.3)})
+            if self.kind in ("quadratic", "cubic", "rq") and rng.random() < 0.4:
+                cfg["minw"] = float(rng.choice([1e-3, 0.02, 0.05]))
+                cfg["minh"] = float(rng.choice([1e-3, 0.01, 0.04]))
         self.extra(cfg, rng)
         return cfg
 
@@ -701,6 +714,11 @@ class _Coupling(Fam):
                 kw["img_shape"] = cfg["shape"][1:]
             if self.kind == "rq" and cfg.get("minder"):
                 kw["min_derivative"] = cfg["minder"]
+            if self.kind in ("quadratic", "cubic", "rq"):
+                if cfg.get("minw"):
+                    kw["min_bin_width"] = cfg["minw"]
+                if cfg.get("minh"):
+                    kw["min_bin_height"] = cfg["minh"]
         return self.cls()(mask=cfg["mask"], transform_net_create_fn=net_factory(cfg, image), **kw)
 
     def meta(self, cfg):
@@ -1092,6 +1110,32 @@ class CompositeCDF(Fam):
         if cfg["cdf"] == "cdf_linear":
             tags.add("kink")
         return _meta(cfg["shape"], ("Rb", 8.0), R_, special=[0.0], tags=tags)
+
+
+@reg
+class SquashPair(Fam):
+    """R^D -> (0,1)^D -> R^D: Sigmoid(T1) [optionally a bounded spline CDF in between] then Logit(T2)."""
+    name = "squash_pair"
+
+    def sample_cfg(self, rng, tier):
+        return {"fam": self.name, "shape": _shape2d(rng, 1, 4), "t1": float(rng.choice([0.5, 1.0, 2.5])),
+                "t2": float(rng.choice([0.5, 1.0, 2.0])), "cdf": str(rng.choice(["none", "cdf_rq", "cdf_quadratic"])),
+                "bins": int(rng.integers(1, 6))}
+
+    def must(self):
+        return [{"fam": self.name, "shape": [2], "t1": 2.5, "t2": 0.5, "cdf": "none", "bins": 3},
+                {"fam": self.name, "shape": [3], "t1": 0.5, "t2": 2.0, "cdf": "cdf_rq", "bins": 4}]
+
+    def build(self, cfg):
+        from nflows import transforms as T
+        parts = [T.Sigmoid(temperature=cfg["t1"])]
+        if cfg["cdf"] != "none":
+            parts.append(build({"fam": cfg["cdf"], "shape": cfg["shape"], "bins": cfg["bins"], "tails": None, "B": 1.0}))
+        parts.append(T.Logit(temperature=cfg["t2"]))
+        return T.CompositeTransform(parts)
+
+    def meta(self, cfg):
+        return _meta(cfg["shape"], ("Rb", 8.0 / max(cfg["t1"], 0.5)), R_, special=[0.0], tags=["composite", "sigmoid_eps", "spline"])
 
 
 @reg
